@@ -17,6 +17,8 @@ pub enum Loc {
     P0,
     A,
     B,
+    /// second parameter; its LocalId is allocated *before* P0's
+    P1,
 }
 #[derive(Clone, Copy, Debug, PartialEq, Eq, Hash)]
 pub enum Unit {
@@ -181,7 +183,7 @@ impl RefTree {
             let mut positions: Vec<Option<usize>> = (0..=s.items.len()).map(Some).collect();
             positions.push(None);
             for pos in positions {
-                let mut units = vec![Unit::ConstDrop, Unit::ConstSet(Loc::P0), Unit::ConstSet(Loc::A), Unit::ConstSet(Loc::B), Unit::GetDrop(Loc::A)];
+                let mut units = vec![Unit::ConstDrop, Unit::ConstSet(Loc::P0), Unit::ConstSet(Loc::A), Unit::ConstSet(Loc::B), Unit::GetDrop(Loc::A), Unit::GetDrop(Loc::P1)];
                 // branches: to any enclosing seq (dangling seqs: only to themselves)
                 let targets: Vec<usize> = if att { enc.clone() } else { vec![si] };
                 for t in targets {
@@ -275,15 +277,18 @@ pub struct Built {
 /// replay the actions on the real builder API
 pub fn build(acts: &[Act]) -> Built {
     let mut module = Module::default();
-    let p0 = module.locals.add(ValType::I32);
+    // the second parameter's LocalId is allocated first, a scratch local in between
+    let p1 = module.locals.add(ValType::I32);
     let la = module.locals.add(ValType::I32);
+    let p0 = module.locals.add(ValType::I32);
     let lb = module.locals.add(ValType::I64);
     let loc = |l: Loc| match l {
         Loc::P0 => p0,
         Loc::A => la,
         Loc::B => lb,
+        Loc::P1 => p1,
     };
-    let mut b = FunctionBuilder::new(&mut module.types, &[ValType::I32], &[]);
+    let mut b = FunctionBuilder::new(&mut module.types, &[ValType::I32, ValType::I32], &[]);
     let mut seqs: Vec<InstrSeqId> = vec![b.func_body_id()];
     let mut serial = 0i32;
     for a in acts {
@@ -429,7 +434,7 @@ pub fn build(acts: &[Act]) -> Built {
             }
         }
     }
-    let func = b.finish(vec![p0], &mut module.funcs);
+    let func = b.finish(vec![p0, p1], &mut module.funcs);
     module.exports.add("f", func);
     Built { module, func, seq_ids: seqs }
 }
@@ -472,10 +477,16 @@ pub fn judge(t: &RefTree, out: &[u8]) -> Result<(), (String, String)> {
                 if *e != *x {
                     return Err(("builder-local-slot-changed".into(), format!("local {:?} seen at slots {} and {}", wi, e, x)));
                 }
-                if wi == 0 && *x != 0 {
-                    return Err(("builder-param-moved".into(), format!("parameter emitted as local {}", x)));
+                // Loc discriminants: P0 = 0, A = 1, B = 2, P1 = 3
+                let want_param = if wi == 0 { Some(0u32) } else if wi == 3 { Some(1u32) } else { None };
+                if let Some(pp) = want_param {
+                    if *x != pp {
+                        return Err(("builder-param-moved".into(), format!("parameter {} emitted as local {}", pp, x)));
+                    }
+                } else if *x < 2 {
+                    return Err(("builder-local-on-param-slot".into(), format!("local {:?} emitted at parameter slot {}", wi, x)));
                 }
-                let ty = if *x == 0 { Some(&wmodel::VT::I32) } else { body.locals.get(*x as usize - 1) };
+                let ty = if *x < 2 { Some(&wmodel::VT::I32) } else { body.locals.get(*x as usize - 2) };
                 let wt = if wi == 2 { wmodel::VT::I64 } else { wmodel::VT::I32 };
                 if ty != Some(&wt) {
                     return Err(("builder-local-type".into(), format!("local {:?} emitted at slot {} of type {:?}", wi, x, ty)));
@@ -658,7 +669,7 @@ pub fn acts_from_json(v: &serde_json::Value) -> Vec<Act> {
             num(s, "pos: Some(")
         }
     }
-    let loc = |s: &str| if s.contains("(P0)") { Loc::P0 } else if s.contains("(A)") { Loc::A } else { Loc::B };
+    let loc = |s: &str| if s.contains("(P0)") { Loc::P0 } else if s.contains("(P1)") { Loc::P1 } else if s.contains("(A)") { Loc::A } else { Loc::B };
     v.as_array()
         .map(|arr| {
             arr.iter()
